@@ -118,7 +118,7 @@ Lemma amember_effect ap a mem :
   (forall n e, ep_image ap mem = Some (n, e) -> aget n (a_eps a) = None) ->
   amember ap a mem = Some (mem_effect ap a mem).
 Proof.
-  destruct mem as [an|table n es w items|n es annos items|n es annos c t z|n es annos ms|n long ps es annos body| |x|n ps es body|];
+  destruct mem as [an|table n es w items|n es annos items|n es annos c t z|n es annos ms|n long ps es annos body| |x|n ps es body| |];
     cbn [sub_member]; intros Hsub Hok Ht He; try discriminate; unfold mem_effect; cbn [amember mem_annos].
   - (* annotation *) cbn [type_image ep_image opt_list add_annos fold_left mem_mixins]. rewrite !app_nil_r. reflexivity.
   - (* !type / !table *)
@@ -162,9 +162,6 @@ Proof.
 Qed.
 
 (* ================================================================== the members of one block *)
-Fixpoint fold_opt {S X} (f:S -> X -> option S) (l:list X) (s:S) : option S :=
-  match l with [] => Some s | x :: r => match f s x with Some s' => fold_opt f r s' | None => None end end.
-
 Lemma dmembers_fold ap k : forall ms m a, forallb sub_member ms = true -> aget k m = Some a ->
   dmembers ap k m ms = match fold_opt (amember ap) ms a with Some a' => Some (aset k a' m) | None => None end.
 Proof.
@@ -439,13 +436,14 @@ Proof.
   destruct (String.eqb_spec k k') as [->|_]; [intros [= ->]; left; reflexivity|]. intros H. right. apply IH, H.
 Qed.
 
-Lemma post_app_id m k : no_rescope m = true -> no_mixins m = true -> post_app m k = m.
+Lemma post_app_id m k : no_rescope m = true -> no_mixins m = true -> no_collector m = true -> post_app m k = Some m.
 Proof.
-  intros Hs Hm. unfold post_app. destruct (aget k m) as [a|] eqn:Ha; [|reflexivity].
+  intros Hs Hm Hc. unfold post_app. destruct (aget k m) as [a|] eqn:Ha; [|reflexivity].
   pose proof (aget_In _ _ _ Ha) as Hin.
   unfold no_rescope in Hs. rewrite forallb_forall in Hs. specialize (Hs _ Hin). cbn [fst snd] in Hs.
   apply andb_true_iff in Hs as [Hty Hep]. rewrite forallb_forall in Hty, Hep.
   unfold no_mixins in Hm. rewrite forallb_forall in Hm. specialize (Hm _ Hin). cbn [snd] in Hm.
+  unfold no_collector in Hc. rewrite forallb_forall in Hc. specialize (Hc _ Hin). cbn [snd] in Hc.
   destruct (a_mixins a) eqn:Hmx; [|discriminate]. cbn [fold_left].
   assert (He : mapv (fun e => E (e_name e) (e_long e) (e_doc e) (e_attrs e) (e_pubsub e) (e_source e)
                                  (mapv (fix_param m k) (e_params e)) (e_rest e) (e_stmts e)) (a_eps a) = a_eps a).
@@ -456,20 +454,22 @@ Proof.
   rewrite Hsame, (aset_same _ _ _ Ha), Ha.
   rewrite mapv_id; [|intros kt Hi; apply fix_type_stable, Hty, Hi].
   assert (Hsame2 : set_types a (a_types a) = a) by (destruct a; reflexivity).
-  rewrite Hsame2. apply aset_same, Ha.
+  rewrite Hsame2, (aset_same _ _ _ Ha), Ha. unfold collect_app.
+  destruct (aget collector_name (a_eps a)); [discriminate|]. rewrite (aset_same _ _ _ Ha). reflexivity.
 Qed.
-Lemma post_id m : no_rescope m = true -> no_mixins m = true -> post m = m.
+Lemma post_id m : no_rescope m = true -> no_mixins m = true -> no_collector m = true -> post m = Some m.
 Proof.
-  intros Hs Hm. unfold post. induction (sort_strings (keys m)) as [|k r IH]; cbn [fold_left]; [reflexivity|].
-  rewrite (post_app_id _ _ Hs Hm). exact IH.
+  intros Hs Hm Hc. unfold post. induction (sort_strings (keys m)) as [|k r IH]; cbn [fold_opt]; [reflexivity|].
+  rewrite (post_app_id _ _ Hs Hm Hc). exact IH.
 Qed.
 
 (* C02 on the sub-language: for every well-formed specification in which postProcess re-scopes no reference, the
    compiled module IS the declarative reading - nothing declared is missing or altered, nothing undeclared appears *)
 Theorem denote_canon : forall s,
-  wf_sub s = true -> no_mixins (canon s) = true -> no_rescope (canon s) = true -> denote s = Some (canon s).
+  wf_sub s = true -> no_mixins (canon s) = true -> no_rescope (canon s) = true -> no_collector (canon s) = true ->
+  denote s = Some (canon s).
 Proof.
-  intros s Hwf Hm Hs. unfold denote. rewrite (listen_canon s Hwf), (post_id _ Hs Hm). reflexivity.
+  intros s Hwf Hm Hs Hc. unfold denote. rewrite (listen_canon s Hwf), (post_id _ Hs Hm Hc). reflexivity.
 Qed.
 
 (* non-vacuity: two applications in four interleaved blocks, a table with a key and an optional sequence of a
@@ -491,6 +491,7 @@ Definition sample_spec : spec :=
 
 Example denote_canon_nonvacuous :
   wf_sub sample_spec = true /\ no_mixins (canon sample_spec) = true /\ no_rescope (canon sample_spec) = true /\
+  no_collector (canon sample_spec) = true /\
   keys (canon sample_spec) = ["Ns :: A"; "B"] /\
   match aget "Ns :: A" (canon sample_spec) with
   | Some a => keys (a_types a) = ["T"; "Ids"] /\ keys (a_eps a) = ["Get"; "Put"] /\ a_long a = "the A"
